@@ -4,10 +4,12 @@ import (
 	"encoding/json"
 	"errors"
 	"fmt"
+	"os"
 	"sort"
 	"strconv"
 	"strings"
 	"testing"
+	"time"
 
 	"pgregory.net/rapid"
 
@@ -470,6 +472,9 @@ func (r *runner) transport(what string, err error) error {
 		return fmt.Errorf("server process died during %s: %s", what, pt.CrashDetail(r.c))
 	}
 	if errors.Is(err, sut.ErrTimeout) {
+		if dir := os.Getenv("C13_HANG_DUMPS"); dir != "" { // development aid: keep the goroutine dump of the killed worker
+			_ = os.WriteFile(fmt.Sprintf("%s/hang-%d-%d.txt", dir, os.Getpid(), len(r.trail)), []byte(what+"\n"+strings.Join(r.trail, "\n")+"\n"+r.c.Stderr()), 0o644)
+		}
 		return pt.Inconclusivef("%s did not return within the per-command time budget", what)
 	}
 	return fmt.Errorf("%s: %v", what, err)
@@ -653,6 +658,10 @@ func (m *mdl) flushed() {
 }
 
 const qSize = 2000
+
+// every command of a case takes milliseconds; a command that needs more than this is a hang (C17 owns
+// termination: here it only makes the case inconclusive)
+const cmdTimeout = 40 * time.Second
 
 func (r *runner) fail(q queryT, why string, a ...interface{}) error {
 	must, may := r.m.expected(q.Org, q.Expr)
@@ -890,7 +899,7 @@ func checkC13(cs *c13Case, o *pt.Obs) error {
 	if len(cs.Steps) == 0 {
 		return nil
 	}
-	return pt.WithWorker(sut.Options{Orgs: orgs, Features: []string{"c13dirs"}}, func(c *sut.Client) error {
+	return pt.WithWorker(sut.Options{Orgs: orgs, Features: []string{"c13dirs"}, Timeout: cmdTimeout}, func(c *sut.Client) error {
 		r := &runner{c: c, m: newModel(cs), o: o, cs: cs}
 		nontrivial := false
 		for si, st := range cs.Steps {
